@@ -13,6 +13,7 @@ package c05
 import (
 	"bytes"
 	"fmt"
+	"sort"
 	"testing"
 
 	"github.com/mycoria/mycoria/frame"
@@ -107,12 +108,42 @@ func run(e *core.Env) {
 		}
 		d, _ := f.FrameDataWithMargins(0, 0)
 		sent[token] = &sentFrame{from: from, data: append([]byte(nil), d...), payload: payload}
+		before := map[*simnet.Record]bool{}
+		for _, r := range cn.Pending() {
+			before[r] = true
+		}
 		if mt.IsPriority() {
 			_ = L[from].SendPriority(f)
 		} else {
 			_ = L[from].Send(f)
 		}
 		simnet.Wait()
+		// The one record this frame became on the wire carries the frame's token
+		// as long as the adversary leaves its bytes alone.
+		var fresh []*simnet.Record
+		for _, r := range cn.Pending() {
+			if !before[r] && r.Conn == att.Pair && r.Dir == from && !r.EOF {
+				fresh = append(fresh, r)
+			}
+		}
+		if len(fresh) == 1 {
+			fresh[0].Tag = token
+		}
+	}
+	// Frames whose record reached the reader byte-identical and as one unit.
+	intactDelivered := map[string]bool{}
+	cn.OnDeliver = func(r *simnet.Record) {
+		if r.Conn == att.Pair && r.Tag != "" {
+			intactDelivered[r.Tag] = true
+		}
+	}
+	// In a third of the runs the adversary keeps the record framing intact (whole records are
+	// altered after the length prefix, dropped, duplicated, replayed, displaced by less than the
+	// window, or forged with a genuine header whose counters are changed). Then the reader sees
+	// every untouched record as a unit, and each of them must be delivered while the link is up.
+	framed := tp.Chance(1, 3)
+	if framed {
+		e.Probe("framing_preserving_adversary")
 	}
 	collect := func() (n int) {
 		for i := 0; i < 2; i++ {
@@ -223,7 +254,32 @@ func run(e *core.Env) {
 			if r.Dir == 1 {
 				dst = att.Pair.A
 			}
-			switch tp.Intn(11) {
+			kind := tp.Intn(13)
+			if framed && kind == 2 {
+				kind = 11 // no truncation in framing-preserving runs
+			}
+			switch kind {
+			case 11, 12: // forge: a genuine record with one of its header counters moved forward (or the
+				// whole body randomised as well); the length prefix stays right
+				src := r.Data
+				if hist := intact[r.Dir]; len(hist) > 0 && tp.Chance(1, 2) {
+					src = hist[len(hist)-1-tp.Intn(min(len(hist), 3))]
+				}
+				g := append([]byte(nil), src...)
+				if len(g) < 20 {
+					faults--
+					break
+				}
+				off := 2 + 2*tp.Intn(8)
+				delta := []uint32{1, 1, 2, 3, 4, 63, 64, 65, 1 << 16}[tp.Intn(9)]
+				v := uint32(g[off])<<24 | uint32(g[off+1])<<16 | uint32(g[off+2])<<8 | uint32(g[off+3])
+				v += delta
+				g[off], g[off+1], g[off+2], g[off+3] = byte(v>>24), byte(v>>16), byte(v>>8), byte(v)
+				if tp.Chance(1, 2) {
+					copy(g[18:], tp.Bytes(len(g)-18))
+				}
+				cn.DeliverBytes(dst, g, false)
+				e.Fault("inject_forged_header")
 			case 9, 10: // replay a record that was delivered earlier, at an exact distance behind the newest
 				hist := intact[r.Dir]
 				if len(hist) == 0 {
@@ -246,7 +302,11 @@ func run(e *core.Env) {
 				} else if tp.Chance(1, 3) {
 					pos = len(r.Data) - 1 - tp.Intn(min(16, len(r.Data)))
 				}
+				if framed && pos < 2 {
+					pos = 2 + tp.Intn(min(10, len(r.Data)-2))
+				}
 				r.Data[pos] ^= 1 << tp.Intn(8)
+				r.Tag = ""
 				cn.Deliver(r)
 				e.Fault("corrupt_bit")
 				if pos < 2 {
@@ -254,6 +314,7 @@ func run(e *core.Env) {
 				}
 			case 2:
 				r.Data = r.Data[:tp.Intn(len(r.Data))]
+				r.Tag = ""
 				cn.Deliver(r)
 				e.Fault("truncate")
 			case 3:
@@ -268,7 +329,11 @@ func run(e *core.Env) {
 						same = append(same, q)
 					}
 				}
-				q := same[tp.Intn(min(len(same), 80))]
+				reach := 80
+				if framed {
+					reach = 40
+				}
+				q := same[tp.Intn(min(len(same), reach))]
 				cn.Deliver(q)
 				if q != same[0] {
 					e.Fault("reorder")
@@ -278,7 +343,7 @@ func run(e *core.Env) {
 				e.Fault("drop")
 			case 6: // inject garbage with a plausible length prefix, or pure noise
 				g := tp.Bytes(4 + tp.Intn(600))
-				if tp.Chance(1, 2) {
+				if framed || tp.Chance(1, 2) {
 					m.PutUint16(g[:2], uint16(len(g)))
 				}
 				cn.DeliverBytes(dst, g, false)
@@ -358,6 +423,19 @@ func run(e *core.Env) {
 		e.Probe("link_recovered_after_faults")
 	}
 	collect()
+	if framed && !closed() {
+		var toks []string
+		for tk := range intactDelivered {
+			toks = append(toks, tk)
+		}
+		sort.Strings(toks)
+		for _, tk := range toks {
+			if sf := sent[tk]; sf != nil && sf.got == 0 {
+				e.Fail("intact-frame-lost-while-link-stays-up", "frame %s (%d bytes) reached the reader byte-identical and as one record, the adversary never broke the record framing and displaced nothing by more than 40 records, the link is still up - but the frame was never delivered", tk[:8], len(sf.data))
+			}
+		}
+		e.Probe("framed_run_link_up_at_end")
+	}
 	if faults > 0 && postBytes > 64<<10 {
 		e.Probe("recovery_needed_more_than_64KiB")
 	}
@@ -371,7 +449,13 @@ func run(e *core.Env) {
 	}
 	_ = wire
 	checked := 0
-	for _, sf := range sent {
+	var allToks []string
+	for tk := range sent {
+		allToks = append(allToks, tk)
+	}
+	sort.Strings(allToks)
+	for _, tk := range allToks {
+		sf := sent[tk]
 		if len(sf.payload) < 37 || checked >= 40 {
 			continue
 		}
